@@ -3,6 +3,7 @@ mod cbrun;
 mod config;
 mod csvrun;
 mod dec;
+mod det;
 mod evgen;
 mod evt;
 mod drift;
@@ -11,6 +12,7 @@ mod gen;
 mod mcp;
 mod midas;
 mod pack;
+mod sim;
 mod util;
 
 use serde_json::json;
@@ -98,6 +100,28 @@ fn main() {
             if stride > 0 {
                 evgen::sweep(&mut run, &[evt::SIM, 11084], stride);
             }
+            run.finish();
+        }
+        "simtest" => {
+            // smoke test of the synthesiser: reconstruct a few events and print what comes out
+            use rand::SeedableRng;
+            let ctx = sim::SimCtx::new(args.req("data"));
+            let mut rng = rand_chacha::ChaCha8Rng::seed_from_u64(args.num("seed", 1));
+            for k in 0..args.num("n", 3) {
+                let ev = sim::random_event(&ctx, &mut rng, 1 + (k as usize % 4));
+                let banks = sim::to_banks(&ctx, &ev, 1000 + k as u32, 1.0, 0.0, &mut rng);
+                let t0 = std::time::Instant::now();
+                let m = evt::build_and_project(evt::SIM, &banks, evt::Detail::Digest);
+                println!("tracks={} hits={} banks={} wires={} pads={} verdict={} avals={} vertex={:?} true={:?} {:.2}s",
+                    1 + k % 4, ev.hits.len(), banks.len(), ev.wires.len(), ev.pads.len(), m["verdict"],
+                    m.get("avals").map(|a| a.as_array().unwrap().len()).unwrap_or(0), m.get("vertex"), ev.vertex, t0.elapsed().as_secs_f64());
+            }
+        }
+        "det-worker" => det::worker(),
+        "det" => {
+            let mut run = Runner::new(&args);
+            det::run(&mut run, args.req("data"), args.get("in"), args.num("seed", 1), args.num("nsim", 8), args.num("n", 40),
+                args.get("tier") == Some("thorough"));
             run.finish();
         }
         "config" => {
